@@ -163,6 +163,28 @@ Proof.
   eapply CF_trans; [exact CF03|]. eapply CF_trans; [apply (CF_weaken S t); exact MC|]. apply CF_same; reflexivity.
 Qed.
 
+Lemma require_with_CF_strong mc t S : MCspec mc -> CFMC mc ->
+  forall w x c, Pre t S w -> memN t (consistent w) = false -> outCF (t :: S) w (require_with OC mc w x c).
+Proof.
+  intros HM HC w x c PR Hnc. pose proof (require_prefix RC OC P t S w x c PR) as RP. cbv zeta in RP.
+  destruct PR as [H J0 C Hc Ho Hn]. unfold require_with.
+  set (w2 := get_or_create_task_node (emit w (ERequireStart x c)) x) in *.
+  destruct RP as [L2 [Hc2 RP]]. unfold reserve_require_dependency. rewrite Hc2.
+  pose proof (content_add_dep w2 (tn t) (tn x) DReserved) as CA. pose proof (cons_add_dep w2 (tn t) (tn x) DReserved) as CC.
+  destruct (add_dependency w2 (tn t) (tn x) DReserved) as [[| |] w3] eqn:AD; cbn [bind outCF snd] in *; try exact I.
+  destruct RP as [L3 [E3 [C3 [J3 [Ho3 Hc3]]]]].
+  assert (CF03 : CF (t :: S) w w3).
+  { split; [intros r _; rewrite CA; unfold w2; rewrite content_goc_task; reflexivity|].
+    intros y Y. rewrite CC. unfold w2, get_or_create_task_node. destruct (live _ _); exact Y. }
+  pose proof (HM w3 x (t :: S) (lf_ok _ _ _ L3) J3 C3 E3) as M.
+  pose proof (HC w3 x (t :: S) (lf_ok _ _ _ L3) J3 C3 E3) as MC.
+  destruct (mc w3 x) as [o w4|k w4|]; cbn [bind outCF okP] in *; try exact I.
+  destruct M as [_ [Hc4 _]]. rewrite Hc3 in Hc4.
+  unfold update_require_dependency. change (cur (emit w4 (ERequireEnd x c (oc_stamp (OC c) o) o))) with (cur w4). rewrite Hc4.
+  destruct (get_edata _ _ _); cbn [bind outCF]; try exact I.
+  eapply CF_trans; [exact CF03|]. eapply CF_trans; [exact MC|]. apply CF_same; reflexivity.
+Qed.
+
 Lemma exec_prog_CF t S req : REQspec t S req -> CFREQ t S req ->
   forall p w seen, Pre t S w -> memN t (consistent w) = false -> WFP t seen p -> outCF S w (exec_prog RC OC req p w).
 Proof.
